@@ -11,7 +11,7 @@ GOOD = {"UnlockAt": "persisted", "RefRelease": "persisted", "SeqAtomic": True, "
         "AckWaitsPersist": True, "IkSpan": "run", "RevertGuard": True, "MetaLogsCarryIk": True,
         "CancelAbortsWait": False}
 
-SPEC_INVS = ("TypeOK LocksConsistent C02_SerialFunds C05_IdsGapFree C05_TxIdsSequential C06_AckPersisted "
+SPEC_INVS = ("TypeOK LocksConsistent QuiescentClean C02_SerialFunds C05_IdsGapFree C05_TxIdsSequential C06_AckPersisted "
              "C06_RejectedLeavesNothing C06_OneEntryPerRequest C07_IkOnce C10_RevertOnce C11_RefOnce C14_DryRun "
              "C14_NoIdConsumed C16_EventsFaithful C16_AllPublished").split()
 
@@ -38,7 +38,7 @@ PROPS = {
                 invs=["C11_RefOnce"]),
     "C14": dict(palettes=[("PalDry", 0)],
                 negatives=[("DryRunAllocates", True, "PalDry", 0), ("DryRunPublishes", True, "PalDry", 0)],
-                invs=["C14_DryRun", "C14_NoIdConsumed"]),
+                invs=["C14_DryRun", "C14_NoIdConsumed", "C06_AckPersisted"]),
     "C16": dict(palettes=[("PalKinds", 0), ("PalRevert", 0), ("PalDry", 0), ("PalIk", 1)],
                 negatives=[("RevertEventSwapped", True, "PalRevert", 0), ("DryRunPublishes", True, "PalDry", 0),
                            ("AckWaitsPersist", False, "PalKinds", 0)],
@@ -128,7 +128,7 @@ def judge(ctx, tracefile, invs, label):
         raise Infra("EngineObs did not deliver a verdict (%s)" % res["status"])
     verdict = res["output"].split("OBS-VERDICT", 1)[1]
     found = [(m.group(1), int(m.group(2))) for m in re.finditer(r'<<"(\w+)", (\d+)>>', verdict)]
-    mine = sorted([(n, l) for (n, l) in found if n in invs or n == "NoHang"], key=lambda x: x[1])
+    mine = sorted([(n, l) for (n, l) in found if n in invs or n == "NothingLeftBehind"], key=lambda x: x[1])
     ctx.coverage["observed_failures_all_engine_predicates"] = len(found)
     if not mine:
         return
@@ -145,7 +145,7 @@ def judge(ctx, tracefile, invs, label):
         if sig in seen:
             continue
         seen.add(sig)
-        obs = [x for x in excerpt if x.get("ev") in ("persist", "resp", "publish", "crash", "hung")]
+        obs = [x for x in excerpt if x.get("ev") in ("persist", "resp", "publish", "crash", "hung", "end")]
         what = "%s fails on the real Commander; observable history: %s" % (inv, json.dumps(obs)[:1200])
         ctx.violation(sig, what, {"kind": "engine-trace", "header": excerpt[0],
                                   "schedule": [x for x in e if x.get("ev") == "step"],
